@@ -203,6 +203,12 @@ def _check_tree(res, seen, kmod, U, d, shape, feats, thrs, targets, order, name_
         else:
             names = [f"feat_{chr(97 + f)}" for f in range(d)]
             n2f = {nm: f for f, nm in enumerate(names)}
+        # an earlier call in the same process, with OTHER names (or none): nothing of it may show in this call's output
+        other = [f"other_{chr(120 + f)}" for f in range(d)] if name_mode == "default" else None
+        with contextlib.redirect_stdout(io.StringIO()):
+            kmod.print_kauri_tree(mdl, feature_names=other)
+            if name_mode != "default":
+                kmod.print_kauri_tree(mdl, feature_names=[f"earlier_{f}" for f in range(d)])
         buf = io.StringIO()
         with contextlib.redirect_stdout(buf):
             kmod.print_kauri_tree(mdl, feature_names=names)
@@ -302,6 +308,11 @@ def replay(rep, verbose=False):
         n2f = {nm: f for f, nm in enumerate(names)}
     buf = io.StringIO()
     try:
+        other = [f"other_{chr(120 + f)}" for f in range(d)] if rep["name_mode"] == "default" else None
+        with contextlib.redirect_stdout(io.StringIO()):
+            kmod.print_kauri_tree(mdl, feature_names=other)
+            if rep["name_mode"] != "default":
+                kmod.print_kauri_tree(mdl, feature_names=[f"earlier_{f}" for f in range(d)])
         with contextlib.redirect_stdout(buf):
             kmod.print_kauri_tree(mdl, feature_names=names)
         rules = read_back(buf.getvalue(), n2f)
